@@ -15,7 +15,7 @@ RULE = (
     "callback logs every call (the index is the unique id) and raises a marker exception for every order outside the causal cone "
     "{m : m <= n componentwise} of the request in progress, so that an out-of-cone evaluation is observable even if its value "
     "would be discarded. Checked offline on the log: (a) defining the computation evaluates only zeroth-order terms, (b) every "
-    "request (random schedule over H_tilde, U, U_inv, all blocks, orders in a box) evaluates only in-cone terms, (c) no term is "
+    "request (random schedule over H_tilde, U, U_inv, all blocks, orders in a box; a third are multi-element requests - paired order lists or order slices - whose cone is the union of the requested orders' cones) evaluates only in-cone terms, (c) no term is "
     "evaluated twice over the whole history, (d) metamorphic: re-running with all out-of-cone terms replaced by other values gives "
     "bitwise the same requested value. In-situ monitor 'causal': no nested BlockSeries request exceeds the outermost requested "
     "order. Modes: Hermitian / non-Hermitian, full / selective / no diagonalisation inside blocks. Non-trivial: the Hamiltonian has "
@@ -49,8 +49,10 @@ def _make(rng, nb, sizes, n_par, term_orders, values, E, hermitian, log, state):
         n = tuple(n)
         log.append((i, j, n, state["phase"]))
         cone = state.get("cone")
-        if cone is not None and any(a > b for a, b in zip(n, cone)):
-            raise OutOfCone(f"H[{i},{j},{n}] evaluated while computing order {cone}")
+        if cone is not None:
+            cones = cone if isinstance(cone, list) else [cone]
+            if not any(all(a <= b for a, b in zip(n, c)) for c in cones):
+                raise OutOfCone(f"H[{i},{j},{n}] evaluated while computing order(s) {cones}")
         if not any(n):
             return np.diag(E[i]) if i == j else zero
         if n not in term_orders:
@@ -122,10 +124,22 @@ def run_case(spec):
     nontrivial_out = nontrivial_in = False
     results = []
     for step, (s, i, j, n) in enumerate(schedule):
-        state["phase"], state["cone"] = step, n
+        # a third of the requests are multi-element (paired lists over the order axes / a slice):
+        # the cone is then the union of the cones of the requested orders
+        multi = None
+        if rng.random() < 0.35:
+            others = [universe[int(x)][3] for x in rng.choice(len(universe), size=int(rng.integers(1, 3)))]
+            if n_par >= 2 and rng.random() < 0.7:
+                multi = [n] + others
+                item = (i, j) + tuple([m[k] for m in multi] for k in range(n_par))
+            else:
+                multi = [(k,) + n[1:] for k in range(n[0] + 1)]
+                item = (i, j, slice(None, n[0] + 1)) + n[1:]
+            counters["multi_element_requests"] += 1
+        state["phase"], state["cone"] = step, (multi if multi else n)
         before = len(log)
         try:
-            v = outs[s][(i, j) + n]
+            v = outs[s][item] if multi else outs[s][(i, j) + n]
         except OutOfCone as e:
             raise Violation(f"request {('H_tilde', 'U', 'U_inv')[s]}[{i},{j},{n}] evaluated a term outside its causal cone: {e}")
         except RuntimeError as e:
@@ -141,8 +155,8 @@ def run_case(spec):
         new = log[before:]
         counters["hamiltonian_evals"] += len(new)
         for (_, _, m, _) in new:
-            if any(a > b for a, b in zip(m, n)):
-                raise Violation(f"request at order {n} evaluated H at order {m}")
+            if not any(all(a <= b for a, b in zip(m, c)) for c in (multi or [n])):
+                raise Violation(f"request at order(s) {multi or n} evaluated H at order {m}")
         if any(any(a > b for a, b in zip(o, n)) for o in term_orders):
             nontrivial_out = True
         if any(all(a <= b for a, b in zip(o, n)) for o in term_orders) and any(new):
@@ -183,7 +197,7 @@ def run_case(spec):
 
 def finalize(c, tier, evaluations, distinct):
     reasons = []
-    need = dict(requests=1000, hamiltonian_evals=1000, metamorphic_pairs=300, causal_nested_requests=10000, define_time_evals=500)
+    need = dict(multi_element_requests=200, requests=1000, hamiltonian_evals=1000, metamorphic_pairs=300, causal_nested_requests=10000, define_time_evals=500)
     for k, v in need.items():
         if c.get(k, 0) < v:
             reasons.append(f"{k} observed only {c.get(k, 0)} times (< {v})")
